@@ -1,11 +1,10 @@
 CONSTANTS
-  Mode = "full"
+  Mode = "callsite"
   MaxCands = 1
   NFill = 1
   Layouts = {"one"}
   MaxAttempts = 3
   RetryRaw = FALSE
-INIT Init
-NEXT Stutter
-INVARIANT Emit
+SPECIFICATION SpecCall
+INVARIANTS EveryAttemptConforms NothingLocalEverSent
 CHECK_DEADLOCK FALSE
